@@ -36,6 +36,12 @@ tab = subprocess.run(["python3", f"{V}/tools/seed_table.py"], capture_output=Tru
 out.append(tab)
 text = "\n".join(out)
 d = open(f"{V}/DESIGN.md").read()
+# total number of statements in Props (kept in section 9 between the NOBL markers)
+total = 0
+for f in sorted(glob.glob(f"{V}/coq/Props/C*.v")):
+    if re.fullmatch(r"C\d\d\.v", os.path.basename(f)) or True:
+        total += len(re.findall(r"^\s*(?:Theorem|Lemma|Example|Corollary)\s", open(f).read(), re.M))
+d = re.sub(r"<!--NOBL-->.*?<!--/NOBL-->", f"<!--NOBL-->{total}<!--/NOBL-->", d)
 b, e = "<!-- GEN:BEGIN -->", "<!-- GEN:END -->"
 if b in d:
     d = d[:d.index(b) + len(b)] + "\n" + text + "\n" + d[d.index(e):]
